@@ -24,6 +24,7 @@
 
 #include "EbSvtAv1Dec.h"
 #include "EbDecHandle.h"
+#include "EbVerifHooks.h"
 
 #include "EbDecParseHelper.h"
 #include "EbCommonUtils.h"
@@ -209,6 +210,7 @@ void decode_block(DecModCtxt *dec_mod_ctxt, BlockModeInfo *mode_info, int32_t mi
                         .sb_recon_completed_in_row[ref_sb_tile_row];
                 while (*ref_sb_completed < ref_sb_tile_col + 1)
                     ;
+                SVT_VERIF_HB_ACQUIRE(ref_sb_completed);
             }
         }
     }
